@@ -28,7 +28,13 @@ LAYERS: Dict[str, Dict[str, Any]] = {
     # verbatim statements (a backticked line, a fenced block) before, between and after the equations
     'vstmt': dict(MaxStmts=2, MaxLeaves=1, MaxNodes=1, MaxNames=3, Kinds='VOnly', Idxs='ShapeIdxs', LhsIdxs='Lhs0', Nums='NoStr',
                   BinOps='NoStr', CmpOps='NoStr', Funcs1='NoStr', Funcs2='NoStr', UseNeg='FALSE', UseParen='FALSE', UseCond='FALSE',
-                  MaxVerbatim=2, VForms='BothForms', NoReject='TRUE'),
+                  MaxVerbatim=2, VForms='SameForms', NoReject='TRUE'),
+    # functions in a user namespace that share their last name component with the functions fsic replaces
+    'nsfunc': dict(NoReject='TRUE', MaxStmts=1, MaxLeaves=2, MaxNodes=4, MaxNames=2, Kinds='VOnly', Idxs='ShapeIdxs', LhsIdxs='Lhs0', Nums='NoStr',
+                   BinOps='PlusOnly', CmpOps='NoStr', Funcs1='NsF1', Funcs2='NsF2', UseNeg='FALSE', UseParen='FALSE', UseCond='FALSE'),
+    # several verbatim fragments in one equation with ordinary terms between them
+    'verb3': dict(NoReject='TRUE', MaxStmts=1, MaxLeaves=3, MaxNodes=5, MaxNames=2, Kinds='VOnly', Idxs='ShapeIdxs', LhsIdxs='Lhs0', Nums='NoStr', Verbs='VerbSet',
+                  BinOps='PlusOnly', CmpOps='NoStr', Funcs1='NoStr', Funcs2='NoStr', UseNeg='FALSE', UseParen='FALSE', UseCond='FALSE'),
     # boolean keywords (and / or / not) around comparisons
     'bool': dict(MaxStmts=1, MaxLeaves=3, MaxNodes=6, MaxNames=2, Kinds='VOnly', Idxs='Lhs0', LhsIdxs='Lhs0', Nums='NoStr',
                  BinOps='PlusOnly', CmpOps='LtOnly', Funcs1='NoStr', Funcs2='NoStr', UseNeg='FALSE', UseParen='FALSE', UseCond='TRUE',
@@ -92,7 +98,7 @@ def layer_cfg(layer: str, invariants: Sequence[str], emit: bool = True) -> str:
     return '\n'.join(lines) + '\n'
 
 
-SMALL_LAYERS = {'fortran_pow': 2, 'vstmt': 4, 'verb': 2, 'bool': 8, 'term': 2, 'merge2_small': 4, 'shape3_small': 8, 'fortran_small': 8, 'pair_small': 8, 'merge3': 8, 'merge2': 8}
+SMALL_LAYERS = {'nsfunc': 2, 'verb3': 4, 'fortran_pow': 2, 'vstmt': 4, 'verb': 2, 'bool': 8, 'term': 2, 'merge2_small': 4, 'shape3_small': 8, 'fortran_small': 8, 'pair_small': 8, 'merge3': 8, 'merge2': 8}
 
 
 def emit_layer(ctx: core.Ctx, layer: str, *, timeout: int = 3600) -> List[Dict[str, Any]]:
